@@ -198,6 +198,12 @@ async def part_h2(flavor, case, J):
         else:
             mut = {"frame": r.randrange(8), "kind": r.choice(["inject", "inject-after"]), "what": r.choice(INJECT_KINDS),
                    "seed": r.randrange(1 << 30)}
+        force_uploader = False
+        if i == 1 and flavor != "sync":
+            # one fixed case per shard: the peer overflows the window of the stream on which a sibling is uploading (h2 resets
+            # that stream on its own; what the uploader is told must still name the peer) - found by chance at first
+            mut = {"frame": 4, "kind": "inject", "what": "wu-stream-overflow", "seed": 58063181}
+            force_uploader = True
         net = simnet.Net()
         net.log_events = False
         if r.random() < 0.3:
@@ -217,7 +223,7 @@ async def part_h2(flavor, case, J):
             # every one of them must see a documented exception of the right class, not only the one that was reading
             from .. import runners
             mut["frame"] = 4 + mut["frame"]
-            uploader = i % 4 == 3
+            uploader = i % 4 == 3 or force_uploader
             if uploader:
                 # one of the siblings is in the middle of a slow upload (its send phase) when the bad frame is read by another
                 net.latency = lambda kind_, idx: 0.01 if kind_ == "write" else 0.0
